@@ -1,8 +1,112 @@
-// Validating mode of the mock CA (C20): really fetch the http-01 proof / perform the tls-alpn-01
-// handshake.  Filled in by the C20 work; the default is "no validation configured".
+// Validating mode of the mock CA (C20): really fetch the http-01 proof from the documented path and
+// perform the tls-alpn-01 handshake against the documented address or socket (RFC 8555 8.3, RFC 8737 3).
 use super::ca::Authz;
+use super::cryptoutil as cu;
+use super::der;
+use openssl::ssl::{SslConnector, SslMethod, SslVerifyMode};
 use serde_json::Value;
+use std::io::{Read, Write};
 
-pub fn validate(_cfg: &Value, _authz: &Authz, _chall_idx: usize, _thumb: &str) -> Result<String, String> {
-	Ok("not-validated".into())
+fn check_tls_cert(peer_der: &[u8], identifier: &str, digest: &[u8]) -> Result<(), String> {
+	let info = der::parse_cert(peer_der)?;
+	let mut sans = vec![];
+	let mut n_san = 0;
+	let mut acme = vec![];
+	for e in info.exts.iter() {
+		if e.oid == "2.5.29.17" {
+			n_san += 1;
+			let s = der::parse_san(&e.value)?;
+			sans.extend(s.dns.iter().cloned());
+			if !s.ip.is_empty() || s.other > 0 {
+				return Err("subjectAltName has entries other than dNSName".into());
+			}
+		}
+		if e.oid == "1.3.6.1.5.5.7.1.31" {
+			acme.push(e.clone());
+		}
+	}
+	if n_san != 1 || sans != vec![identifier.to_string()] {
+		return Err(format!("subjectAltName {sans:?} instead of [{identifier}]"));
+	}
+	if acme.len() != 1 || !acme[0].critical {
+		return Err("acmeIdentifier extension missing or not critical".into());
+	}
+	let mut want = vec![0x04, 0x20];
+	want.extend_from_slice(digest);
+	if acme[0].value != want {
+		return Err(format!("acmeIdentifier {} instead of {}", cu::hexs(&acme[0].value), cu::hexs(&want)));
+	}
+	if info.issuer != info.subject {
+		return Err("certificate is not self-signed".into());
+	}
+	Ok(())
+}
+
+fn handshake<S: Read + Write + std::fmt::Debug>(stream: S, identifier: &str, digest: &[u8]) -> Result<(), String> {
+	let mut b = SslConnector::builder(SslMethod::tls()).map_err(|e| format!("{e}"))?;
+	b.set_verify(SslVerifyMode::NONE);
+	b.set_alpn_protos(b"\x0aacme-tls/1").map_err(|e| format!("{e}"))?;
+	let conn = b.build();
+	let mut cfg = conn.configure().map_err(|e| format!("{e}"))?;
+	cfg.set_verify_hostname(false);
+	let s = cfg.connect(identifier, stream).map_err(|e| format!("handshake failed: {e}"))?;
+	if s.ssl().selected_alpn_protocol() != Some(b"acme-tls/1") {
+		return Err(format!("negotiated ALPN {:?}", s.ssl().selected_alpn_protocol()));
+	}
+	let cert = s.ssl().peer_certificate().ok_or("no peer certificate")?;
+	check_tls_cert(&cert.to_der().map_err(|e| format!("{e}"))?, identifier, digest)
+}
+
+pub fn validate(cfg: &Value, authz: &Authz, chall_idx: usize, thumb: &str) -> Result<String, String> {
+	let ch = &authz.challs[chall_idx];
+	let ka = format!("{}.{}", ch.token, thumb);
+	let retry_ms = cfg.get("retry_ms").and_then(|v| v.as_u64()).unwrap_or(3000);
+	match ch.ctype.as_str() {
+		"http-01" => {
+			let root = cfg.get("http_root").and_then(|v| v.as_str()).ok_or("no http_root configured")?;
+			let path = format!("{root}/{}/.well-known/acme-challenge/{}", authz.value, ch.token);
+			let body = std::fs::read_to_string(&path).map_err(|e| format!("{path}: {e}"))?;
+			use std::os::unix::fs::MetadataExt;
+			let mode = std::fs::metadata(&path).map(|m| m.mode() & 0o777).unwrap_or(0);
+			if body.trim_end_matches(['\r', '\n']) != ka {
+				return Err(format!("{path}: content {:?} is not the key authorization {:?}", body, ka));
+			}
+			if mode & 0o004 == 0 {
+				return Err(format!("{path}: mode {mode:o} is not world-readable"));
+			}
+			Ok(format!("http-01 proof found at {path}"))
+		}
+		"tls-alpn-01" => {
+			let digest = cu::sha256(ka.as_bytes());
+			let tls = cfg.get("tls").ok_or("no tls target configured")?;
+			let mode = tls.get("mode").and_then(|v| v.as_str()).unwrap_or("tcp");
+			let deadline = std::time::Instant::now() + std::time::Duration::from_millis(retry_ms);
+			let mut last = String::new();
+			loop {
+				let r = if mode == "unix" {
+					let root = tls.get("sock_root").and_then(|v| v.as_str()).unwrap_or("/run");
+					let path = format!("{root}/tacd_{}.sock", authz.value);
+					match std::os::unix::net::UnixStream::connect(&path) {
+						Ok(s) => handshake(s, &authz.value, &digest),
+						Err(e) => Err(format!("{path}: {e}")),
+					}
+				} else {
+					let addr = tls.get("addr").and_then(|v| v.as_str()).unwrap_or("127.0.0.1:5001");
+					match std::net::TcpStream::connect(addr) {
+						Ok(s) => handshake(s, &authz.value, &digest),
+						Err(e) => Err(format!("{addr}: {e}")),
+					}
+				};
+				match r {
+					Ok(()) => return Ok("tls-alpn-01 handshake presented the expected certificate".into()),
+					Err(e) => last = e,
+				}
+				if std::time::Instant::now() >= deadline {
+					return Err(last);
+				}
+				std::thread::sleep(std::time::Duration::from_millis(50));
+			}
+		}
+		other => Err(format!("no validator for {other}")),
+	}
 }
